@@ -20,6 +20,43 @@ thread_local! {
     static LOG: RefCell<Option<Vec<Event>>> = const { RefCell::new(None) };
 }
 
+/// Durable-image events with the written bytes copied out (process-global: punches are
+/// issued from pool threads; a crash exploration runs one history at a time per process).
+#[derive(Debug, Clone)]
+pub enum DurEv {
+    Write { file: FileKind, off: usize, bytes: Vec<u8> },
+    SetLen { file: FileKind, len: usize },
+    SyncBegin { file: FileKind },
+    SyncEnd { file: FileKind },
+    Punch { off: usize, len: usize },
+}
+static DURABLE: Mutex<Option<Vec<DurEv>>> = Mutex::new(None);
+
+pub fn start_durable() {
+    ensure_installed();
+    *DURABLE.lock() = Some(Vec::new());
+}
+
+pub fn take_durable() -> Vec<DurEv> {
+    DURABLE.lock().take().unwrap_or_default()
+}
+
+fn record_durable(ev: &Event) {
+    let mut g = DURABLE.lock();
+    let Some(v) = g.as_mut() else { return };
+    match ev {
+        Event::MmapWrite { file, off, len, src } | Event::MmapWritten { file, off, len, src } => {
+            let bytes = unsafe { std::slice::from_raw_parts(*src, *len) }.to_vec();
+            v.push(DurEv::Write { file: *file, off: *off, bytes });
+        }
+        Event::SetLen { file, len } => v.push(DurEv::SetLen { file: *file, len: *len }),
+        Event::SyncBegin { file } => v.push(DurEv::SyncBegin { file: *file }),
+        Event::SyncEnd { file } => v.push(DurEv::SyncEnd { file: *file }),
+        Event::Punch { off, len, .. } => v.push(DurEv::Punch { off: *off, len: *len }),
+        _ => {}
+    }
+}
+
 static PUNCHES: Mutex<Option<HashMap<i32, Vec<(usize, usize)>>>> = Mutex::new(None);
 type Ctl = Arc<dyn Fn(&Event) + Send + Sync>;
 static CONTROLLER: Mutex<Option<Ctl>> = Mutex::new(None);
@@ -36,6 +73,7 @@ pub fn ensure_installed() {
                     }
                 }
             }
+            record_durable(ev);
             LOG.with(|l| {
                 if let Some(v) = l.borrow_mut().as_mut() {
                     v.push(*ev);
